@@ -1020,3 +1020,215 @@ Proof.
          (set_aliased (mk_token (codes "q"))), [set_aliased (mk_token (codes "and")); set_aliased (mk_token (codes "a"))].
   split; [vm_compute; reflexivity|]. split; [vm_compute; reflexivity|]. vm_compute. discriminate.
 Qed.
+
+(* ====================================================================== *)
+(* G. a doubled negation is never printed without parentheses              *)
+(*    (Conditions.__str__ after the repair of double_negation_wrapped)     *)
+(* ====================================================================== *)
+
+(* what the proof needs of a profile name: no space in it, and not the word "not" *)
+Definition name_ok (s : str) : bool := negb (existsb (Z.eqb 32) s) && negb (str_eqb s (codes "not")).
+Fixpoint names_ok (c : cond) : bool :=
+  match c with
+  | CSingle _ name => name_ok name
+  | CScore _ _ _ | CMin _ _ _ => true
+  | CCds _ subs | CGroup _ subs => forallb names_ok subs
+  | CAnd ops => forallb names_ok ops
+  end.
+
+Section CondInd.
+  Variable P : cond -> Prop.
+  Hypothesis hS : forall n name, P (CSingle n name).
+  Hypothesis hSc : forall n name s, P (CScore n name s).
+  Hypothesis hM : forall n k opts, P (CMin n k opts).
+  Hypothesis hC : forall n subs, Forall P subs -> P (CCds n subs).
+  Hypothesis hG : forall n subs, Forall P subs -> P (CGroup n subs).
+  Hypothesis hA : forall ops, Forall P ops -> P (CAnd ops).
+  Fixpoint cond_ind_nested (c : cond) : P c :=
+    let go := fix go (l : list cond) : Forall P l :=
+      match l with
+      | [] => Forall_nil P
+      | x :: r => Forall_cons x (cond_ind_nested x) (go r)
+      end in
+    match c with
+    | CSingle n name => hS n name
+    | CScore n name s => hSc n name s
+    | CMin n k opts => hM n k opts
+    | CCds n subs => hC n subs (go subs)
+    | CGroup n subs => hG n subs (go subs)
+    | CAnd ops => hA ops (go ops)
+    end.
+End CondInd.
+
+(* some position inside both texts holds different characters *)
+Fixpoint mismatch (p a : str) : bool :=
+  match p, a with
+  | x :: p', y :: a' => negb (x =? y) || mismatch p' a'
+  | _, _ => false
+  end.
+
+Lemma mismatch_app : forall p a r, mismatch p a = true -> starts_with p (a ++ r) = false.
+Proof.
+  induction p as [|x p IH]; intros [|y a] r H; cbn [mismatch] in H; try discriminate H.
+  cbn [app starts_with]. destruct (x =? y); cbn [negb orb andb] in *; [apply IH; assumption|reflexivity].
+Qed.
+
+Lemma starts_with_app : forall p a r, starts_with p a = true -> starts_with p (a ++ r) = true.
+Proof.
+  induction p as [|x p IH]; intros a r H; [reflexivity|].
+  destruct a as [|y a]; cbn [starts_with] in H; [discriminate H|].
+  cbn [app starts_with]. apply andb_true_iff in H. destruct H as [H1 H2]. rewrite H1, (IH _ _ H2). reflexivity.
+Qed.
+
+Lemma starts_with_longer_false : forall p q s, starts_with p s = false -> starts_with (p ++ q) s = false.
+Proof.
+  induction p as [|x p IH]; intros q s H; [discriminate H|].
+  destruct s as [|y s]; [reflexivity|]. cbn [app starts_with] in *.
+  destruct (x =? y); cbn [andb] in *; [apply IH; assumption|reflexivity].
+Qed.
+
+Lemma starts_with_strip : forall p q s, starts_with (p ++ q) (p ++ s) = starts_with q s.
+Proof.
+  induction p as [|x p IH]; intros q s; [reflexivity|].
+  cbn [app starts_with]. rewrite Z.eqb_refl, IH. reflexivity.
+Qed.
+
+Lemma starts_with_self_app : forall p s, starts_with p (p ++ s) = true.
+Proof. intros p s. apply starts_with_app. induction p as [|x p IH]; [reflexivity|]. cbn [starts_with]. rewrite Z.eqb_refl, IH. reflexivity. Qed.
+
+(* what may follow the text of an operand: nothing, a space, or a closing parenthesis *)
+Definition tail_ok (t : str) : Prop := match t with [] => True | c :: _ => c = 32 \/ c = 41 end.
+
+Definition s_notnot : str := s_not ++ s_not.
+
+(* the text starts with the fixed characters a: both tests are decided inside a *)
+Lemma headed : forall a r t,
+  mismatch s_not a = true \/ starts_with s_not a = true -> mismatch s_notnot a = true ->
+  starts_with s_not ((a ++ r) ++ t) = starts_with s_not (a ++ r) /\ starts_with s_notnot ((a ++ r) ++ t) = false.
+Proof.
+  intros a r t H1 H2. rewrite <- app_assoc. split; [|apply mismatch_app; assumption].
+  destruct H1 as [H1|H1]; [rewrite !(mismatch_app _ _ _ H1)|rewrite !(starts_with_app _ _ _ H1)]; reflexivity.
+Qed.
+
+Lemma name_tail : forall name t, name_ok name = true -> tail_ok t -> starts_with s_not (name ++ t) = false.
+Proof.
+  intros name t H Ht. unfold name_ok in H. apply andb_true_iff in H. destruct H as [Hs Hn].
+  apply negb_true_iff in Hs. apply negb_true_iff in Hn.
+  assert (Tl : forall x, starts_with [x] t = true -> x = 32 \/ x = 41).
+  { intros x Hx. destruct t as [|c t]; [discriminate Hx|]. cbn [starts_with] in Hx. rewrite andb_true_r in Hx.
+    apply Z.eqb_eq in Hx. subst. exact Ht. }
+  change s_not with [110; 111; 116; 32].
+  destruct name as [|a [|b [|c [|d r]]]]; cbn [app].
+  - destruct (starts_with [110; 111; 116; 32] t) eqn:E; [|reflexivity].
+    destruct t as [|x t]; [discriminate E|]. cbn [starts_with] in E. apply andb_true_iff in E. destruct E as [E _].
+    apply Z.eqb_eq in E. subst. cbn [tail_ok] in Ht. lia.
+  - cbn [starts_with]. destruct (110 =? a); [cbn [andb]|reflexivity].
+    destruct t as [|x t]; [reflexivity|]. cbn [starts_with]. destruct (Z.eqb_spec 111 x); [|reflexivity].
+    subst. cbn [tail_ok] in Ht. lia.
+  - cbn [starts_with]. destruct (110 =? a); [cbn [andb]|reflexivity]. destruct (111 =? b); [cbn [andb]|reflexivity].
+    destruct t as [|x t]; [reflexivity|]. cbn [starts_with]. destruct (Z.eqb_spec 116 x); [|reflexivity].
+    subst. cbn [tail_ok] in Ht. lia.
+  - cbn [starts_with]. destruct (Z.eqb_spec 110 a); [cbn [andb]|reflexivity].
+    destruct (Z.eqb_spec 111 b); [cbn [andb]|reflexivity]. destruct (Z.eqb_spec 116 c); [cbn [andb]|reflexivity].
+    subst. vm_compute in Hn. discriminate Hn.
+  - cbn [starts_with]. cbn [existsb] in Hs. apply orb_false_iff in Hs. destruct Hs as [_ Hs].
+    apply orb_false_iff in Hs. destruct Hs as [_ Hs]. apply orb_false_iff in Hs. destruct Hs as [_ Hs].
+    apply orb_false_iff in Hs. destruct Hs as [Hs _]. rewrite Hs. cbn [andb]. rewrite !andb_false_r. reflexivity.
+Qed.
+
+Lemma tail_ok_starts : forall p t, tail_ok t -> mismatch p [32] = true -> mismatch p [41] = true -> starts_with p t = false.
+Proof.
+  intros p t Ht H1 H2. destruct t as [|c t].
+  - destruct p; [discriminate H1|reflexivity].
+  - cbn [tail_ok] in Ht. destruct Ht; subst; [apply (mismatch_app p [32] t)|apply (mismatch_app p [41] t)]; assumption.
+Qed.
+
+Lemma show_tail : forall c, names_ok c = true -> forall t, tail_ok t ->
+  starts_with s_not (show c ++ t) = starts_with s_not (show c) /\ starts_with s_notnot (show c ++ t) = false.
+Proof.
+  induction c using cond_ind_nested; intros Hn t Ht.
+  - (* CSingle *)
+    cbn [names_ok] in Hn. cbn [show]. destruct n; cbn [prefix].
+    + rewrite <- app_assoc. split.
+      * rewrite !starts_with_self_app. reflexivity.
+      * unfold s_notnot. rewrite starts_with_strip. apply name_tail; assumption.
+    + cbn [app]. split.
+      * rewrite (name_tail name t Hn Ht). symmetry. rewrite <- (app_nil_r name). apply name_tail; [assumption|exact I].
+      * unfold s_notnot. apply starts_with_longer_false. apply name_tail; assumption.
+  - (* CScore *)
+    cbn [show]. destruct n; cbn [prefix].
+    + rewrite (app_assoc s_not). apply headed; [right|]; reflexivity.
+    + cbn [app]. apply headed; [left|]; reflexivity.
+  - (* CMin *)
+    cbn [show]. destruct n; cbn [prefix].
+    + rewrite (app_assoc s_not). apply headed; [right|]; reflexivity.
+    + cbn [app]. apply headed; [left|]; reflexivity.
+  - (* CCds *)
+    cbn [show]. destruct n; cbn [prefix].
+    + rewrite (app_assoc s_not). apply headed; [right|]; reflexivity.
+    + cbn [app]. apply headed; [left|]; reflexivity.
+  - (* CGroup *)
+    assert (Par : forall r, starts_with s_not ((prefix n ++ codes "(" ++ r) ++ t) = starts_with s_not (prefix n ++ codes "(" ++ r)
+                            /\ starts_with s_notnot ((prefix n ++ codes "(" ++ r) ++ t) = false).
+    { intros r. destruct n; cbn [prefix].
+      - rewrite (app_assoc s_not). apply headed; [right|]; reflexivity.
+      - cbn [app]. apply (headed (codes "(")); [left|]; reflexivity. }
+    cbn [show]. destruct subs as [|sub [|sub2 rest]]; try apply Par.
+    destruct (is_and sub); [apply Par|].
+    destruct (n && starts_with s_not (show sub)) eqn:E; [apply Par|].
+    cbn [names_ok forallb] in Hn. rewrite andb_true_r in Hn.
+    inversion H as [|x l Hsub _]; subst. specialize (Hsub Hn t Ht). destruct Hsub as [I1 I2].
+    destruct n; cbn [prefix].
+    + cbn [andb] in E. rewrite <- app_assoc. split.
+      * rewrite !starts_with_self_app. reflexivity.
+      * unfold s_notnot. rewrite starts_with_strip. rewrite I1. exact E.
+    + cbn [app]. split; assumption.
+  - (* CAnd *)
+    cbn [show]. destruct ops as [|x [|y rest]].
+    + cbn [map join app]. split; apply tail_ok_starts; try assumption; reflexivity.
+    + cbn [map join]. cbn [names_ok forallb] in Hn. rewrite andb_true_r in Hn.
+      inversion H as [|x' l Hx _]; subst. apply Hx; assumption.
+    + cbn [names_ok forallb] in Hn. apply andb_true_iff in Hn. destruct Hn as [Hx _].
+      inversion H as [|x' l IHx _]; subst.
+      change (join s_and_sep (map show (x :: y :: rest))) with (show x ++ s_and_sep ++ join s_and_sep (map show (y :: rest))).
+      set (R := s_and_sep ++ join s_and_sep (map show (y :: rest))).
+      assert (TR : forall u, tail_ok (R ++ u)) by (intros u; left; reflexivity).
+      rewrite <- app_assoc.
+      destruct (IHx Hx (R ++ t) (TR t)) as [A1 A2]. destruct (IHx Hx R) as [B1 _].
+      { rewrite <- (app_nil_r R). apply TR. }
+      split; [rewrite A1, B1; reflexivity|exact A2].
+Qed.
+
+(* an IDENTIFIER token is such a name *)
+Lemma map_get_Some : forall k m v, map_get k m = Some v -> In (k, v) m.
+Proof.
+  induction m as [|[k' v'] m IH]; intros v H; [discriminate H|]. cbn [map_get] in H.
+  destruct (str_eqb k k') eqn:E.
+  - apply str_eqb_eq in E. inversion H; subst. left. reflexivity.
+  - right. apply IH. assumption.
+Qed.
+
+Lemma identifier_name_ok : forall s, classify s = c02_T_IDENTIFIER -> name_ok s = true.
+Proof.
+  intros s H. unfold name_ok. apply andb_true_iff. split; apply negb_true_iff.
+  - unfold classify in H. destruct (map_get s c02_token_mapping) eqn:E.
+    + apply map_get_Some in E. subst z.
+      assert (F : forallb (fun kv => negb (snd kv =? c02_T_IDENTIFIER)) c02_token_mapping = true) by (vm_compute; reflexivity).
+      rewrite forallb_forall in F. specialize (F _ E). cbn [snd] in F. rewrite Z.eqb_refl in F. discriminate F.
+    + destruct (all_digits s); [vm_compute in H; discriminate H|].
+      destruct (is_legal_identifier s) eqn:L; [|vm_compute in H; discriminate H].
+      unfold is_legal_identifier in L.
+      destruct (negb (existsb is_alpha s)); [discriminate L|].
+      destruct (negb (forallb (fun c => is_alpha c || is_digit c || (c =? 95) || (c =? 45)) s)) eqn:F; [discriminate L|].
+      apply negb_false_iff in F. rewrite forallb_forall in F.
+      destruct (existsb (Z.eqb 32) s) eqn:X; [|reflexivity].
+      apply existsb_exists in X. destruct X as [c [Hc Hc2]]. apply Z.eqb_eq in Hc2. subst c.
+      specialize (F _ Hc). vm_compute in F. discriminate F.
+  - destruct (str_eqb s (codes "not")) eqn:E; [|reflexivity].
+    apply str_eqb_eq in E. subst s. vm_compute in H. discriminate H.
+Qed.
+
+Lemma no_doubled_not : forall c, names_ok c = true -> starts_with (codes "not not ") (show c) = false.
+Proof.
+  intros c H. destruct (show_tail c H [] I) as [_ H2]. rewrite app_nil_r in H2. exact H2.
+Qed.
